@@ -1,4 +1,5 @@
 import WV.Proofs.C17_Run
+import WV.Proofs.C17_Mono
 
 /-!
 C17 helper lemmas, part 10: an incapable peer.  Once `Manager.fail(OldPeerCannotDilateError)` has
@@ -8,169 +9,11 @@ happens next.
 namespace WV.Proofs.C17
 open WV WV.Gen WV.C17
 
-/-- `_main_channel` holds the Failure for good -/
-def MainMono (w w' : World) : Prop := w.main = .failed → w'.main = .failed
-
-theorem MainMono.refl (w : World) : MainMono w w := fun h => h
-theorem MainMono.trans {a b c : World} (h1 : MainMono a b) (h2 : MainMono b c) : MainMono a c := fun h => h2 (h1 h)
-
-theorem mm_andThen {w : World} {r : Res} {f : World → Res} (h1 : MainMono w r.1) (h2 : ∀ v, MainMono v (f v).1) :
-    MainMono w (andThen r f).1 := by
-  obtain ⟨v, e⟩ := r
-  cases e
-  · exact h1.trans (h2 v)
-  · exact h1
-
-theorem mm_tOuts (k : Terminator.Output → World → Res) (hk : ∀ o v, MainMono v (k o v).1)
-    (os : List Terminator.Output) (v : World) : MainMono v (tOuts k os v).1 := by
-  induction os generalizing v with
-  | nil => exact MainMono.refl _
-  | cons o os ih => exact mm_andThen (hk o v) (fun u => ih u)
-
-theorem mm_tInput (fuel : Nat) : ∀ (i : Terminator.Input) (v : World), MainMono v (tInput fuel i v).1 := by
-  induction fuel with
-  | zero => intro i v; exact MainMono.refl _
-  | succ f ih =>
-    intro i v
-    simp only [tInput]
-    split
-    · exact MainMono.refl _
-    · refine MainMono.trans ?_ (mm_tOuts _ ?hk _ _)
-      case hk =>
-        intro o u
-        cases o
-        · exact fun h => h
-        · exact fun h => h
-        · exact fun h => h
-        · exact fun h => h
-        · exact fun h => h
-        · show MainMono u (if u.hasMgr = true then andThen (mInput .k_stop "" 0 u) (fun w1 => (whenStopped w1, none))
-                  else tInput f .stoppedD u).1
-          split
-          · refine mm_andThen (keep_mInput _ _ _ _).mainMono ?_
-            intro x
-            unfold whenStopped
-            split <;> exact fun h => h
-          · exact ih _ _
-      exact fun h => h
-
-theorem mm_runThunk (t : Thunk) (v : World) : MainMono v (runThunk t v) := by
-  cases t with
-  | accept g c => exact (keep_logged (keep_cInput connectionMade keep_connectionMade g .accept c v)).mainMono
-  | discard c => exact fun h => h
-  | mgrLost => exact (keep_connectionLost v).mainMono
-  | stoppedD => exact mm_tInput _ _ _
-  | waiter i ok =>
-    obtain ⟨ws, rg, e⟩ := resolveWaiter_same i ok v
-    show MainMono v (resolveWaiter i ok v)
-    rw [e]; exact fun h => h
-
-theorem mm_runThunks (l : List Thunk) (v : World) : MainMono v (runThunks l v) := by
-  induction l generalizing v with
-  | nil => exact MainMono.refl _
-  | cons t rest ih => exact (mm_runThunk t v).trans (ih _)
-
-theorem mm_drainMsgs (l : List Msg) : ∀ x : World, MainMono x (drainMsgs l x).1 := by
-  induction l with
-  | nil => intro x; exact fun h => h
-  | cons m rest ih =>
-    intro x
-    simp only [drainMsgs]
-    refine mm_andThen (MainMono.trans ?_ (keep_receivedMsg m _).mainMono) (fun u => ih u)
-    exact fun h => h
-
-theorem mm_replayVersions (u : World) : MainMono u (replayVersions u).1 := by
-  unfold replayVersions
-  split
-  · exact (keep_mgrGotVersions _ _).mainMono
-  · exact fun h => h
-
-theorem mm_connectAs (nm : Option String) (v : World) : MainMono v (connectAs nm v) := by
-  obtain ⟨ws, wn, q, mo, e, _⟩ := connectAs_same nm v
-  rw [e]; exact fun h => h
-
-theorem mm_step (v : World) (e : Ev) : MainMono v (step v e).1 := by
-  have ofres : ∀ r : Res, (ofRes r).1 = r.1 := by
-    intro r; obtain ⟨a, b⟩ := r; cases b <;> rfl
-  cases e with
-  | dilate =>
-    simp only [step, ofres, dilate]
-    split
-    · exact fun h => h
-    · split
-      · exact fun h => h
-      · refine mm_andThen (MainMono.trans ?_ (mm_replayVersions _)) (fun u => mm_drainMsgs _ u)
-        unfold replayKey; split <;> exact fun h => h
-  | key => simp only [step, gotKey]; split <;> exact fun h => h
-  | versions vv =>
-    simp only [step, ofres, gotVersions]
-    split
-    · exact (keep_mgrGotVersions vv v).mainMono
-    · exact fun h => h
-  | msg m =>
-    simp only [step, ofres, receivedDilate]
-    split
-    · exact (keep_receivedMsg m v).mainMono
-    · exact fun h => h
-  | connect =>
-    simp only [step]
-    split
-    · exact mm_connectAs none v
-    · exact fun h => h
-  | ep l name => simp only [step]; split <;> exact fun h => h
-  | econnect k =>
-    simp only [step]
-    split
-    · exact fun h => h
-    · split
-      · exact fun h => h
-      · exact mm_connectAs none v
-  | elisten k =>
-    simp only [step]
-    split
-    · exact fun h => h
-    · split
-      · exact mm_connectAs _ v
-      · exact fun h => h
-  | term i => simp only [step, ofres]; exact mm_tInput _ _ _
-  | turn =>
-    simp only [step, turn]
-    intro h
-    exact mm_runThunks _ _ h
-  | lready k =>
-    simp only [step]
-    split
-    · exact fun h => h
-    · split
-      · exact fun h => h
-      · intro h
-        exact (keep_logged (keep_cInput noMade keep_noMade _ _ _ _)).mainMono h
-  | inbound k => simp only [step]; split <;> (try split) <;> exact fun h => h
-  | dial j => simp only [step]; split <;> (try split) <;> exact fun h => h
-  | dialok j => simp only [step]; split <;> (try split) <;> exact fun h => h
-  | dialfail j => simp only [step]; split <;> (try split) <;> exact fun h => h
-  | kcm c =>
-    simp only [step]
-    split
-    · exact fun h => h
-    · split
-      · exact fun h => h
-      · split
-        · exact fun h => h
-        · split
-          · exact fun h => h
-          · split
-            · rw [ofres]
-              intro h
-              exact (keep_cInput connectionMade keep_connectionMade _ _ _ _).mainMono h
-            · exact fun h => h
-  | lost c => simp only [step]; split <;> (try split) <;> exact fun h => h
-
 /-- the Failure in `_main_channel` survives every later event -/
 theorem failed_sticky (es : List Ev) (w : World) (h : w.main = .failed) : (run w es).main = .failed := by
   induction es generalizing w with
   | nil => exact h
-  | cons e es ih => exact ih _ (mm_step w e h)
+  | cons e es ih => exact ih _ ((mm_step w e).1 h)
 
 /-- `Manager.got_wormhole_versions` with nothing in common: the Failure is stored and every
     waiting connect() gets it -/
